@@ -72,7 +72,7 @@ class Endpoint(object):
 
 
 class Impl(object):
-    def __init__(self, ident, secret):
+    def __init__(self, ident, secret, policy='constant'):
         self.clock = _REACTOR
         # fresh virtual clock state for every run
         for c in list(self.clock.getDelayedCalls()):
@@ -86,7 +86,8 @@ class Impl(object):
         self.stop_d = None
         self.close_done = False
         self.ms = 0
-        self.svc = TS.ClientSessionService(Endpoint(self), ident, secret, retryPolicy=lambda n: 1.0)
+        # policy 'default': the service's own default (ClientService's jittered exponential back-off, at most ~61 s)
+        self.svc = TS.ClientSessionService(Endpoint(self), ident, secret, retryPolicy=(lambda n: 1.0) if policy == 'constant' else None)
 
     def close(self):
         try:
@@ -214,12 +215,17 @@ def gen_and_run(rng, tier, ident, secret, profile):
                 do(['close'])
                 continue
             do(['start'] if (rng.random() < 0.3 and impl.stop_d is None) else ['idle'])
+        if profile == 'normal':
+            for _ in range(rng.choice([0, 2, 6])):
+                do(['read'])
         if profile == 'close' and impl.stop_d is None:
             do(['close'])
         if impl.stop_d is not None:
             if impl.tr is not None and not impl.tr.gone:
                 do(['lost'])
             do(['advance', 5000])
+        elif impl.svc.running and not impl.attempts and (impl.tr is None or impl.tr.gone):
+            do(['advance', AIO_ENGINE.RECONNECT_BOUND_MS])
     finally:
         impl.close()
     return events, lines
@@ -267,6 +273,10 @@ def run(tier, seed, drv, prop=None):
         res.sample({'events': script['events'][:14]}, limit=3)
     if prop in (None, 'C13', 'C11'):
         AIO_ENGINE.run_sweep(res, drv, lambda: Impl('me', 'secret'), AIO_ENGINE.canon, True, 't', 'twisted', double=(tier == 'thorough'))
+    if prop in (None, 'C13'):
+        n = {'quick': 1100, 'thorough': 5000}[tier]
+        AIO_ENGINE.run_outage(res, drv, lambda: Impl('me', 'secret'), AIO_ENGINE.canon, True, 't', 'twisted', n)
+        AIO_ENGINE.run_outage(res, drv, lambda: Impl('me', 'secret', policy='default'), AIO_ENGINE.canon, True, 't', 'twisted', n)
     res.assumptions += [
         'Twisted: MemoryReactorClock is the global reactor; the endpoint is scripted (each attempt accepted or refused); retryPolicy is the constant 1.0 s; ClientService is library code taken as is',
         'application calls are injected between reactor steps',
@@ -276,7 +286,7 @@ def run(tier, seed, drv, prop=None):
 
 def replay(script, drv):
     res = Result('twclient')
-    impl = Impl(script['ident'], script['secret'])
+    impl = Impl(script['ident'], script['secret'], policy=script.get('policy', 'constant'))
     lines = []
     try:
         for ev in script['events']:
